@@ -3,7 +3,8 @@
    [TR] = the model instantiated on Coq reals; the same definitions run on [TE] (expr). *)
 From Coq Require Import Arith List Reals.
 From Coquelicot Require Import Coquelicot.
-From GPV Require Import Base.LinAlg Base.Exec Base.Expr Models.C05_kernels Models.C19_derivs Proofs.C19_derivs.
+From GPV Require Import Base.LinAlg Base.Exec Base.Expr Base.Gaussian Models.C05_kernels Models.C19_derivs
+  Proofs.C19_derivs Proofs.C19_phi.
 
 (* RBFCovariance: the term saved in forward (s k / l, s = D2 / l^2) is d/dl of the forward
    value exp(-s/2), for every squared distance D2 (coincident points D2 = 0 included) *)
@@ -29,21 +30,43 @@ Theorem c19_matern_backward_coincident : forall nu2 (c l : R), @mat_bwd_of_l TR 
 Proof. exact matern_backward_coincident. Qed.
 Print Assumptions c19_matern_backward_coincident.
 
-(* LogNormalCDF.backward, branch z >= -1: given log_phi_z = ln P with P = Phi(z) > 0 the returned
-   expression is phi(z) / P.  Partial: that phi / Phi is the derivative of ln Phi (derivative of the
-   integral defining Phi) is not proved here, and the tail branch z < -1 (rational approximation)
-   is tested only. *)
-Theorem c19_lncdf_backward_partial :
+(* LogNormalCDF.backward, main branch (z >= -1; the tail branch is a rational approximation and is
+   tested only).  Algebraic form: given log_phi_z = ln P for ANY P > 0 the returned expression is phi(z) / P *)
+Theorem c19_lncdf_backward_formula :
   forall z P : R, (0 < P)%R -> lncdf_bwd_R z (ln P) = (std_normal_pdf z / P)%R.
 Proof. exact lncdf_backward_identity. Qed.
-Print Assumptions c19_lncdf_backward_partial.
+Print Assumptions c19_lncdf_backward_formula.
+
+(* Phi(z) = 1/2 + int_0^z phi is strictly between 0 and 1 on the whole line (sharp Gaussian-integral
+   bound (int_0^x e^(-t^2/2) dt)^2 < pi/2, proved by differentiating under the integral sign) *)
+Theorem c19_std_normal_cdf_pos : forall z : R, (0 < std_normal_cdf z)%R.
+Proof. exact std_normal_cdf_pos. Qed.
+Print Assumptions c19_std_normal_cdf_pos.
+
+(* ... hence, with the forward value log Phi(z) saved, the value returned by backward IS the derivative of
+   the forward function log Phi at z, for every real z, with no side condition *)
+Theorem c19_lncdf_backward_is_derivative :
+  forall z : R,
+    is_derive (fun x => ln (std_normal_cdf x)) z (lncdf_bwd_R z (ln (std_normal_cdf z))).
+Proof. exact lncdf_backward_is_derivative. Qed.
+Print Assumptions c19_lncdf_backward_is_derivative.
+Theorem c19_lncdf_backward_value :
+  forall z : R, lncdf_bwd_R z (ln (std_normal_cdf z)) = (std_normal_pdf z / std_normal_cdf z)%R.
+Proof. exact lncdf_backward_value. Qed.
+Print Assumptions c19_lncdf_backward_value.
 
 (* ... as a vector-Jacobian product: for EVERY upstream gradient g, of either sign, the value returned on that branch is
-   g * phi(z) / P, and negating the upstream gradient negates it (no absolute value anywhere) *)
-Theorem c19_lncdf_vjp_partial :
+   g * phi(z) / P, it is the derivative of g * log Phi, and negating the upstream gradient negates it (no absolute
+   value anywhere) *)
+Theorem c19_lncdf_vjp_formula :
   forall g z P : R, (0 < P)%R -> lncdf_vjp_R g z (ln P) = (g * (std_normal_pdf z / P))%R.
 Proof. exact lncdf_vjp_identity. Qed.
-Print Assumptions c19_lncdf_vjp_partial.
+Print Assumptions c19_lncdf_vjp_formula.
+Theorem c19_lncdf_vjp_is_derivative :
+  forall g z : R,
+    is_derive (fun x => (g * ln (std_normal_cdf x))%R) z (lncdf_vjp_R g z (ln (std_normal_cdf z))).
+Proof. exact lncdf_vjp_is_derivative. Qed.
+Print Assumptions c19_lncdf_vjp_is_derivative.
 Theorem c19_lncdf_vjp_odd_in_upstream :
   forall g z lp : R, lncdf_vjp_R (- g) z lp = (- lncdf_vjp_R g z lp)%R.
 Proof. exact lncdf_vjp_neg. Qed.
@@ -116,6 +139,18 @@ Theorem c19_den_lncdf_grad :
 Proof. exact den_lncdf_grad. Qed.
 Print Assumptions c19_den_lncdf_grad.
 
+(* the two terms the harness evaluates for LogNormalCDF (value, gradient) are a function and its derivative *)
+Theorem c19_lncdf_exprs_are_value_and_derivative :
+  forall z : expr,
+    den (lncdf_value_expr z) = ln (std_normal_cdf (den z)) /\
+    is_derive (fun t => ln (std_normal_cdf t)) (den z) (den (lncdf_grad_expr z)).
+Proof. exact lncdf_exprs_are_value_and_derivative. Qed.
+Print Assumptions c19_lncdf_exprs_are_value_and_derivative.
+
 (* non-vacuity: a concrete point satisfying the hypotheses of the natural-parameter theorems *)
 Example ex_c19_natural_point : (0 < 2 - 1 * 1)%R.
 Proof. exact ex_natural_point. Qed.
+
+(* non-vacuity of the Phi bounds at a point of the left tail *)
+Example ex_c19_lncdf_point : (0 < std_normal_cdf (-3) < 1)%R.
+Proof. exact ex_lncdf_point. Qed.
